@@ -125,7 +125,35 @@ def build_impl():
     except OSError:
         pass
     rc, out = sh(["go", "build", "-tags", "verif", "-o", "bin/impl", "./cmd/impl"], cwd=HARNESS, env=GOENV, timeout=900)
-    return rc == 0, out
+    if rc != 0:
+        return False, out
+    # the in-package verif driver of package main (vflow/verif_*_test.go, build tag verif): real flagSet / workers / mirror
+    rc, out2 = sh(["go", "test", "-c", "-tags", "verif", "-o", os.path.join(HARNESS, "bin", "vflow.test"), "./vflow/"], cwd=REPO, env=GOENV, timeout=900)
+    return rc == 0, out + out2
+
+
+def run_driver(cases, timeout=900):
+    """cases: list of dicts -> list of results (one JSON object per case) from the in-package verif driver"""
+    import tempfile
+    d = tempfile.mkdtemp(prefix="verif-driver-", dir=os.path.join(ROOT, ".build"))
+    try:
+        fin, fout = os.path.join(d, "in.jsonl"), os.path.join(d, "out.jsonl")
+        with open(fin, "w") as f:
+            for c in cases:
+                f.write(json.dumps(c) + "\n")
+        env = dict(GOENV, VERIF_IN=fin, VERIF_OUT=fout)
+        p = subprocess.run([os.path.join(HARNESS, "bin", "vflow.test"), "-test.run", "TestVerifDriver", "-test.timeout", "%ds" % timeout],
+                           env=env, stdout=subprocess.PIPE, stderr=subprocess.STDOUT, text=True, timeout=timeout + 30)
+        res = []
+        if os.path.exists(fout):
+            for l in open(fout):
+                if l.strip():
+                    res.append(json.loads(l))
+        while len(res) < len(cases):
+            res.append({"error": "driver produced no result (exit %s): %s" % (p.returncode, p.stdout[-400:])})
+        return res
+    finally:
+        shutil.rmtree(d, ignore_errors=True)
 
 
 def check_property_file(pid):
